@@ -177,8 +177,7 @@ theorem compact_cases (agg : FieldType → V → V → V) (p : Params V) (st : F
   · left; rw [if_pos h1]
   · by_cases h2 : st.l0.length = 1 ∧ (pickUp st.l0 st.l1).isEmpty
     · right; left; rw [if_neg h1]; simp only []; rw [if_pos h2]
-    · by_cases h3 : ((mergeGroups p (st.l0 ++ pickUp st.l0 st.l1)).any (fun g => mergeFails p.tolerant g.2)
-          || (!p.rebind && decide ((splitLoop p.size p.maxFileSize (mergedEntries agg p (st.l0 ++ pickUp st.l0 st.l1)) [] 0).length > 1))) = true
+    · by_cases h3 : jobFails agg p (st.l0 ++ pickUp st.l0 st.l1) = true
       · left; rw [if_neg h1]; simp only []; rw [if_neg h2, if_pos h3]
       · right; right; rw [if_neg h1]; simp only []; rw [if_neg h2, if_neg h3]
 
